@@ -18,6 +18,8 @@ type sprofile struct {
 	pFault    float64 // share of syncs that carry a message fault
 	pMut      float64 // share of syncs whose request is mutated
 	storeEach bool
+	pPatch    float64
+	pNoSnap   float64
 	dts       []string
 }
 
@@ -26,6 +28,7 @@ var sprofiles = map[string]sprofile{
 	"svclog": {name: "svclog", steps: 30, maxCli: 5, maxKeys: 2, cols: 1, pCall: 0.45, pSync: 0.45, pNewDt: 0.1, storeEach: true, dts: []string{"counter", "list", "map"}},
 	"fault":  {name: "fault", steps: 30, maxCli: 3, maxKeys: 1, cols: 1, pCall: 0.45, pSync: 0.5, pNewDt: 0.05, pFault: 0.45, storeEach: true, dts: []string{"counter", "list", "map", "document"}},
 	"mut":    {name: "mut", steps: 24, maxCli: 3, maxKeys: 2, cols: 2, pCall: 0.35, pSync: 0.55, pNewDt: 0.1, pMut: 0.5, storeEach: true, dts: []string{"counter", "list", "map"}},
+	"rest":   {name: "rest", steps: 22, maxCli: 3, maxKeys: 1, cols: 1, pCall: 0.35, pSync: 0.4, pNewDt: 0.05, pPatch: 0.2, pNoSnap: 0.3, storeEach: true, dts: []string{"document"}},
 	"iso":    {name: "iso", steps: 28, maxCli: 4, maxKeys: 2, cols: 3, pCall: 0.4, pSync: 0.45, pNewDt: 0.15, pMut: 0.25, storeEach: true, dts: []string{"counter", "map", "list"}},
 }
 
@@ -97,6 +100,20 @@ func (s *sgen) newDt(c int) bool {
 		typ = s.p.dts[s.r.intn(len(s.p.dts))]
 	}
 	return s.emit(s.w.stepNewDt(c, key, typ, mode))
+}
+
+// currentDoc: the user-visible document stored for (col, key), if any
+func (s *sgen) currentDoc(col, key string) map[string]interface{} {
+	st := s.w.storeJ()
+	for _, u := range st["userDocs"].([]interface{}) {
+		uj := u.(J)
+		if uj["col"] == col && uj["key"] == key {
+			if m, ok := uj["value"].(map[string]interface{}); ok {
+				return m
+			}
+		}
+	}
+	return nil
 }
 
 func (s *sgen) genMut(c int) *mutation {
@@ -177,6 +194,17 @@ func (s *sgen) runCase(id int) bool {
 		x := float64(s.r.next()%1000000) / 1000000.0
 		var hung bool
 		switch {
+		case s.p.pPatch > 0 && s.r.chance(s.p.pPatch):
+			key := s.keys[s.r.intn(len(s.keys))]
+			col := s.cols[s.r.intn(len(s.cols))]
+			var tgt interface{}
+			cur := s.currentDoc(col, key)
+			if cur != nil && s.r.intn(4) != 0 {
+				tgt = s.g.mutateVal(cur, 0)
+			} else {
+				tgt = s.g.randObj(0)
+			}
+			hung = s.emit(s.w.stepPatch(col, key, tgt))
 		case x < s.p.pCall && len(rs) > 0:
 			r := rs[s.r.intn(len(rs))]
 			m, a := s.g.genCall(r, false)
@@ -191,7 +219,9 @@ func (s *sgen) runCase(id int) bool {
 			}
 			fault := ""
 			var mut *mutation
-			if s.r.chance(s.p.pFault) {
+			if s.p.pNoSnap > 0 && s.r.chance(s.p.pNoSnap) {
+				fault = "nosnap"
+			} else if s.r.chance(s.p.pFault) {
 				fault = []string{"dup", "dup1", "drop", "late"}[s.r.intn(4)]
 			} else if s.r.chance(s.p.pMut) {
 				mut = s.genMut(c)
